@@ -213,6 +213,27 @@ def h_info_edge(ctx, which):
         ctx.claim('no_sweep_returns_the_initial_tensor', ctx.all_eq(ref_full(Y), ref_full(Y0)))
 
 
+def h_info_prev(ctx, n, rho, nswp):
+    """No convergence threshold and no callback: info['e'] is still the distance
+    of the returned tensor to the tensor of the previous sweep (= the result of
+    the same run with one sweep less)."""
+    T = ctx.tt('t', n, rho)
+    Y0 = simple_Y0(n, rho)
+    with stubs_installed(ctx, 'first'):
+        Yp = teneva.cross(Oracle(ctx, target=T), Y0, nswp=nswp - 1, dr_min=0, dr_max=0, info={})
+    info = {}
+    with stubs_installed(ctx, 'first') as st:
+        Y = teneva.cross(Oracle(ctx, target=T), Y0, nswp=nswp, dr_min=0, dr_max=0, info=info)
+    ctx.claim('info_nswp', info['nswp'] == nswp and info['stop'] == 'nswp')
+    if st is not None:
+        Y1, Y1c, Y2c, v = st.acc_calls[-1]
+        ctx.claim('e_is_distance_of_result_to_previous_sweep',
+                  all(bool(ctx.all_eq(a, b)) for a, b in zip(Y1c, Y)) and
+                  all(a.shape == b.shape and bool(ctx.all_eq(a, b)) for a, b in zip(Y2c, Yp)) and bool(ctx.eq(info['e'], v)))
+    else:
+        ctx.claim('e_is_distance_of_result_to_previous_sweep', ctx.close(info['e'], teneva.accuracy(Y, Yp), 1e-7))
+
+
 def h_interrupted_info(ctx, which):
     """info / cache statements of C05 on interrupted runs (set-ups shared with C06)."""
     from harness import c06
@@ -265,6 +286,8 @@ def instances(tier):
                 out.append({'func': 'h_interrupted_growing', 'params': {'n': n, 'rho': rho, 'how': how, 'after': after}, 'opts': G})
     out.append({'func': 'h_concrete_growth_real_maxvol', 'params': {}, 'opts': {'concrete_only': True}})
     out.append({'func': 'h_info', 'params': {'n': [2, 2], 'rho': 1}, 'opts': G})
+    out.append({'func': 'h_info_prev', 'params': {'n': [2, 2], 'rho': 1, 'nswp': 2}, 'opts': G})
+    out.append({'func': 'h_info_prev', 'params': {'n': [2, 3], 'rho': 1, 'nswp': 3}, 'opts': G})
     for which in ('conv', 'nswp0', 'e_vld0'):
         out.append({'func': 'h_info_edge', 'params': {'which': which}, 'opts': G})
     for which in ('e_vld_on_interrupt', 'cache_with_budget'):
